@@ -1,4 +1,4 @@
-import Proofs.Lemmas.PoolSim
+import Proofs.Lemmas.PoolCor
 /-!
 # C20 — operation pools keep what they are given and never panic
 
@@ -51,6 +51,201 @@ each sync-committee buffer holds only items of its own slot (`currentSlot − 1`
 theorem indexes_consistent (ops : List Op) :
     (Pools.run Cfg.fixed (Pools.new Cfg.fixed) ops).1.Consistent :=
   consistent_of_inv (reachable_related ops)
+
+/-! ## 4. consequences for the model, by the refinement
+
+`reach ops` is the model state after `ops` on fresh pools; `answer w op` is what the model answers. -/
+
+/-- the model state reached by `ops` from the constructors -/
+abbrev reach (ops : List Op) : Pools := (Pools.run Cfg.fixed (Pools.new Cfg.fixed) ops).1
+/-- the model's answer to `op` in state `w` -/
+abbrev answer (w : Pools) (op : Op) : Out := (w.step Cfg.fixed op).2
+/-- the model state after `op` -/
+abbrev after (w : Pools) (op : Op) : Pools := (w.step Cfg.fixed op).1
+/-- the model state after `ops` -/
+abbrev afterAll (w : Pools) (ops : List Op) : Pools := (w.run Cfg.fixed ops).1
+
+/-- the specification state that belongs to `reach ops` -/
+abbrev sreach (ops : List Op) : SPools := (SPools.run SPools.new ops).1
+
+theorem reach_related (ops : List Op) : PoolsInv (reach ops) (sreach ops) := reachable_related ops
+
+theorem after_related {w : Pools} {sw : SPools} (h : PoolsInv w sw) (op : Op) :
+    PoolsInv (after w op) (sw.step op).1 := (step_sim h op).1
+
+theorem afterAll_related {w : Pools} {sw : SPools} (h : PoolsInv w sw) (ops : List Op) :
+    PoolsInv (afterAll w ops) (sw.run ops).1 := (run_sim h ops).1
+
+theorem answer_equiv {w : Pools} {sw : SPools} (h : PoolsInv w sw) (op : Op) :
+    OutEquiv (answer w op) (sw.step op).2 := (step_sim h op).2
+
+theorem spec_ok_of_answer_ok {w : Pools} {sw : SPools} (h : PoolsInv w sw) {op : Op}
+    (hok : answer w op = .ok) : (sw.step op).2 = .ok := by
+  have := answer_equiv h op
+  rw [hok] at this
+  exact OutEquiv.ok_iff.mp this.symm
+
+theorem answer_err_of_spec_err {w : Pools} {sw : SPools} (h : PoolsInv w sw) {op : Op}
+    (herr : (sw.step op).2 = .err) : answer w op = .err := by
+  have := answer_equiv h op
+  rw [herr] at this
+  exact OutEquiv.err_iff.mp this
+
+theorem answer_ok_of_spec_ok {w : Pools} {sw : SPools} (h : PoolsInv w sw) {op : Op}
+    (hok : (sw.step op).2 = .ok) : answer w op = .ok := by
+  have := answer_equiv h op
+  rw [hok] at this
+  exact OutEquiv.ok_iff.mp this
+
+/-- **Prune is exact.** `Prune e` removes exactly the aggregates with target epoch `< e − 1` (saturating:
+`e ≤ 1` removes nothing): every `Search` after it returns the items of the same `Search` before it that
+have `target ≥ e − 1`, and nothing else. -/
+theorem prune_exact (ops : List Op) (e : Nat) (s i : Option Nat) :
+    ∃ before after', answer (reach ops) (.search s i) = .atts before ∧
+      answer (after (reach ops) (.prune e)) (.search s i) = .atts after' ∧
+      after'.Perm (before.filter fun a => !decide (a.data.target < e - 1)) := by
+  have h := reach_related ops
+  obtain ⟨l1, h1, p1⟩ := OutEquiv.atts_iff.mp (answer_equiv h (.search s i))
+  obtain ⟨l2, h2, p2⟩ := OutEquiv.atts_iff.mp (answer_equiv (after_related h (.prune e)) (.search s i))
+  refine ⟨l1, l2, h1, h2, ?_⟩
+  have : Spec.search (Spec.prune (sreach ops).att e) s i =
+      (Spec.search (sreach ops).att s i).filter (fun a => !decide (a.data.target < e - 1)) := search_prune _ _ _ _
+  exact p2.trans (this ▸ (p1.filter _).symm)
+
+/-- `Prune 0` and `Prune 1` remove nothing (`epoch.Previous()` saturates at 0). -/
+theorem prune_saturates (ops : List Op) (e : Nat) (he : e ≤ 1) (s i : Option Nat) :
+    ∃ before after', answer (reach ops) (.search s i) = .atts before ∧
+      answer (after (reach ops) (.prune e)) (.search s i) = .atts after' ∧ after'.Perm before := by
+  obtain ⟨b, a, h1, h2, p⟩ := prune_exact ops e s i
+  refine ⟨b, a, h1, h2, ?_⟩
+  have : b.filter (fun a => !decide (a.data.target < e - 1)) = b :=
+    List.filter_eq_self.mpr (fun x _ => by have : e - 1 = 0 := by omega
+                                           simp [this])
+  rwa [this] at p
+
+/-- **Search is complete.** Every aggregate the specification has accepted and that has not been pruned
+is returned by every `Search` whose filter it matches — in particular by the unfiltered `Search`. -/
+theorem search_complete (ops : List Op) (d : AttData) (b : Bits) (sg : Nat) (c : List Nat)
+    (hacc : Ev.agg d b sg c ∈ (sreach ops).att) (s i : Option Nat) (hm : matchesFilter s i d = true) :
+    ∃ l, answer (reach ops) (.search s i) = .atts l ∧ (⟨d, b, sg⟩ : Att) ∈ l := by
+  obtain ⟨l, hl, p⟩ := OutEquiv.atts_iff.mp (answer_equiv (reach_related ops) (.search s i))
+  exact ⟨l, hl, p.mem_iff.mpr ((mem_search_iff _ s i ⟨d, b, sg⟩).mpr ⟨hm, c, hacc⟩)⟩
+
+theorem search_complete_unfiltered (ops : List Op) (d : AttData) (b : Bits) (sg : Nat) (c : List Nat)
+    (hacc : Ev.agg d b sg c ∈ (sreach ops).att) :
+    ∃ l, answer (reach ops) (.search none none) = .atts l ∧ (⟨d, b, sg⟩ : Att) ∈ l :=
+  search_complete ops d b sg c hacc none none rfl
+
+/-- … and in terms of the history: the first aggregate for some data, once answered `ok`, is returned by
+every later unfiltered `Search` until a `Prune e` with `target < e − 1`. -/
+theorem first_aggregate_searchable (ops mid : List Op) (a : Att) (c : List Nat)
+    (hnew : a.data ∉ (reach ops).att.aggregate.keys) (hcount : 2 ≤ onesCount a.bits)
+    (hok : answer (reach ops) (.att a c) = .ok)
+    (hmid : ∀ e, Op.prune e ∈ mid → ¬ a.data.target < e - 1) :
+    ∃ l, answer (afterAll (after (reach ops) (.att a c)) mid) (.search none none) = .atts l ∧ a ∈ l := by
+  have h := reach_related ops
+  have hnil : aggsFor (sreach ops).att a.data = [] :=
+    (h.att.aggNone a.data).mp (GoMap.get?_eq_none_iff.mpr hnew)
+  have hspec : ((sreach ops).step (.att a c)).2 = .ok := spec_ok_of_answer_ok h hok
+  -- the specification appended the aggregate
+  have hin : Ev.agg a.data a.bits a.sig c ∈ ((sreach ops).step (.att a c)).1.att := by
+    rw [sstep_att]; dsimp only
+    rcases spec_add_cases (sreach ops).att a c with e | ⟨_, ⟨v, _, h1, _, _⟩ | ⟨_, _, e⟩⟩
+    · -- unchanged list: the answer was `err` (new data is never absorbed)
+      exfalso
+      have : (Spec.add (sreach ops).att a c).2 = false := by
+        rw [spec_add_eq] at e ⊢
+        have h0 : onesCount a.bits ≠ 0 := by omega
+        have h1 : onesCount a.bits ≠ 1 := by omega
+        rw [if_neg h0, if_neg h1] at e ⊢
+        split
+        · rfl
+        · rename_i hl
+          rw [if_neg hl] at e
+          unfold specAddAgg at e ⊢
+          rw [hnil] at e ⊢
+          dsimp only at e ⊢
+          split
+          · rename_i hany; rw [if_pos hany] at e; simp at e
+          · rfl
+      simp only [SPools.step, this, outOfBool] at hspec
+      cases hspec
+    · omega
+    · rw [e]; exact List.mem_append_right _ (List.mem_singleton.mpr rfl)
+  have hper := srun_att_persist _ mid _ hin (by simpa using hmid)
+  have hrel := afterAll_related (after_related h (.att a c)) mid
+  obtain ⟨l, hl, p⟩ := OutEquiv.atts_iff.mp (answer_equiv hrel (.search none none))
+  exact ⟨l, hl, p.mem_iff.mpr ((mem_search_iff _ none none a).mpr ⟨rfl, c, hper⟩)⟩
+
+/-- Every accepted attester slashing is listed by `All()` from then on. -/
+theorem accepted_attester_slashing_listed (ops mid : List Op) (a b : Nat)
+    (hok : answer (reach ops) (.aslash a b) = .ok) :
+    ∃ l, answer (afterAll (after (reach ops) (.aslash a b)) mid) .aslashes = .pairs l ∧ (a, b) ∈ l := by
+  have h := reach_related ops
+  have hspec : ((sreach ops).step (.aslash a b)).2 = .ok := spec_ok_of_answer_ok h hok
+  have hk : (a, b) ∉ (sreach ops).asl.map (·.1) := by
+    have : outOfBool (keyedAdd (sreach ops).asl (a, b) (a, b)).2 = .ok := hspec
+    exact (keyedAdd_true_iff _ _ _).mp (outOfBool_eq_ok.mp this)
+  obtain ⟨t, ht⟩ := srun_asl_prefix ((sreach ops).step (.aslash a b)).1 mid
+  have hrel := afterAll_related (after_related h (.aslash a b)) mid
+  obtain ⟨l, hl, p⟩ := OutEquiv.pairs_iff.mp (answer_equiv hrel .aslashes)
+  refine ⟨l, hl, p.mem_iff.mpr ?_⟩
+  show (a, b) ∈ keyedAll ((((sreach ops).step (.aslash a b)).1.run mid).1.asl) []
+  rw [ht]
+  simp only [SPools.step, keyedAdd, List.append_assoc, List.singleton_append]
+  exact mem_keyedAll_of_first List.not_mem_nil hk
+
+/-- Every accepted proposer slashing is listed by `All()` from then on. -/
+theorem accepted_proposer_slashing_listed (ops mid : List Op) (pr id : Nat)
+    (hok : answer (reach ops) (.pslash pr id) = .ok) :
+    ∃ l, answer (afterAll (after (reach ops) (.pslash pr id)) mid) .pslashes = .pairs l ∧ (pr, id) ∈ l := by
+  have h := reach_related ops
+  have hspec : ((sreach ops).step (.pslash pr id)).2 = .ok := spec_ok_of_answer_ok h hok
+  have hk : pr ∉ (sreach ops).psl.map (·.1) := by
+    have : outOfBool (keyedAdd (sreach ops).psl pr (pr, id)).2 = .ok := hspec
+    exact (keyedAdd_true_iff _ _ _).mp (outOfBool_eq_ok.mp this)
+  obtain ⟨t, ht⟩ := srun_psl_prefix ((sreach ops).step (.pslash pr id)).1 mid
+  have hrel := afterAll_related (after_related h (.pslash pr id)) mid
+  obtain ⟨l, hl, p⟩ := OutEquiv.pairs_iff.mp (answer_equiv hrel .pslashes)
+  refine ⟨l, hl, p.mem_iff.mpr ?_⟩
+  show (pr, id) ∈ keyedAll ((((sreach ops).step (.pslash pr id)).1.run mid).1.psl) []
+  rw [ht]
+  simp only [SPools.step, keyedAdd, List.append_assoc, List.singleton_append]
+  exact mem_keyedAll_of_first List.not_mem_nil hk
+
+/-- Every accepted voluntary exit is listed by `All()` from then on. -/
+theorem accepted_exit_listed (ops mid : List Op) (v ep : Nat)
+    (hok : answer (reach ops) (.exit v ep) = .ok) :
+    ∃ l, answer (afterAll (after (reach ops) (.exit v ep)) mid) .exits = .pairs l ∧ (v, ep) ∈ l := by
+  have h := reach_related ops
+  have hspec : ((sreach ops).step (.exit v ep)).2 = .ok := spec_ok_of_answer_ok h hok
+  have hk : v ∉ (sreach ops).exits.map (·.1) := by
+    have : outOfBool (keyedAdd (sreach ops).exits v (v, ep)).2 = .ok := hspec
+    exact (keyedAdd_true_iff _ _ _).mp (outOfBool_eq_ok.mp this)
+  obtain ⟨t, ht⟩ := srun_exits_prefix ((sreach ops).step (.exit v ep)).1 mid
+  have hrel := afterAll_related (after_related h (.exit v ep)) mid
+  obtain ⟨l, hl, p⟩ := OutEquiv.pairs_iff.mp (answer_equiv hrel .exits)
+  refine ⟨l, hl, p.mem_iff.mpr ?_⟩
+  show (v, ep) ∈ keyedAll ((((sreach ops).step (.exit v ep)).1.run mid).1.exits) []
+  rw [ht]
+  simp only [SPools.step, keyedAdd, List.append_assoc, List.singleton_append]
+  exact mem_keyedAll_of_first List.not_mem_nil hk
+
+/-- **Search is sound.** Every item `Search` returns matches the filter and was added by an earlier
+`AddAttestation` call with exactly that data, bits and signature which was answered `ok`, and no `Prune e`
+with `target < e − 1` came after it. -/
+theorem search_sound (ops : List Op) (s i : Option Nat) :
+    ∃ l, answer (reach ops) (.search s i) = .atts l ∧ ∀ x ∈ l,
+      matchesFilter s i x.data = true ∧
+      ∃ j c, ops[j]? = some (Op.att x c) ∧
+        (Pools.run Cfg.fixed (Pools.new Cfg.fixed) ops).2[j]? = some Out.ok ∧
+        ∀ (j' e : Nat), j < j' → ops[j']? = some (Op.prune e) → ¬ x.data.target < e - 1 := by
+  obtain ⟨l, hl, p⟩ := OutEquiv.atts_iff.mp (answer_equiv (reach_related ops) (.search s i))
+  refine ⟨l, hl, fun x hx => ?_⟩
+  obtain ⟨hm, c, hc⟩ := (mem_search_iff _ s i x).mp (p.mem_iff.mp hx)
+  obtain ⟨j, hj, hout, hpr⟩ := log_history ops x.data x.bits x.sig c hc
+  obtain ⟨o, ho, heq⟩ := outsEquiv_getElem? (pools_refine_spec ops) j _ hout
+  exact ⟨hm, j, c, hj, by rw [ho, OutEquiv.ok_iff.mp heq], hpr⟩
 
 /-! ## 5. the bit functions -/
 
